@@ -166,6 +166,9 @@ pub fn run(ctx: &mut Ctx) {
         ctx.forall_lens(&format!("seqs_long/{}", id.name()), &lens, |n| gen::owned_spec_n(id, n).prop_map(move |s| Case { codec: id, s }), dispatch);
     }
     for id in ALL_CODECS {
+        if !id.model().all_patterns_valid() && id != CodecId::Text {
+            continue;
+        }
         let cases = ctx.cases(400, 10);
         let st = (proptest::collection::vec(prop_oneof![4 => any::<u64>(), 1 => Just(0u64), 1 => Just(u64::MAX)], 0..=6), any::<u16>()).prop_map(move |(words, count)| RawCase { codec: id, words, count });
         ctx.forall(&format!("raw_images/{}", id.name()), cases, st, raw_dispatch);
